@@ -315,12 +315,14 @@ def _fit():
 
 
 def _resample(prop):
-    kinds = {"C08": ("billing", "calendar", "subdaily"), "C09": ("temp",)}[prop]
+    kinds = {"C08": ("billing", "calendar", "dailyreads", "subdaily"), "C09": ("temp",)}[prop]
 
     def variants(tier, r, cin):
         # "<form>@<zone>": whole-hour-DST zones of both hemispheres (transition at 02:00 local, at 01:00 UTC, southern seasons)
         if cin["kind"] == "billing":
             vs = [f + "@" + z for f in ("baseline", "reporting") for z in ("America/Chicago", "Europe/London")]
+        elif cin["kind"] == "dailyreads":
+            return [f + "@" + z for f in ("frame", "series", "series-hfeed") for z in ("America/Chicago", "Europe/London", "Australia/Sydney")]
         elif cin["kind"] == "calendar":
             vs = [f + "#" + st + "@" + z for f in ("baseline", "reporting") for st in ("w", "a", "m") for z in ("America/Chicago", "Europe/London")]
             return vs if tier == "thorough" else [r.choice(vs)]
